@@ -2,12 +2,15 @@
 """Blind-spot finder for the rules (not a registered check): delete one single-line statement of production code at a
 time in a scratch worktree, run all 20 checks, and list the deletions that compile and that no rule reports.  The
 survivors are triaged by reading (many are equivalent: logging, metrics, redundant stores); the real ones lead to new
-rules.  usage: automut.py <worktree> <out.json> [file-regex] [max]"""
+rules.  usage: automut.py <worktree> <out.json> [file-regex] [max] [del|rel]   (rel: replace one relational / boundary
+operator instead of deleting a statement)"""
 import json, os, re, subprocess, sys, random, concurrent.futures as cf
 V = os.path.dirname(os.path.dirname(os.path.abspath(__file__)))
 W, OUT = sys.argv[1], sys.argv[2]
 FRE = re.compile(sys.argv[3]) if len(sys.argv) > 3 else re.compile('.')
 MAX = int(sys.argv[4]) if len(sys.argv) > 4 else 100
+MODE = sys.argv[5] if len(sys.argv) > 5 else 'del'
+REL = [(' <= ', ' < '), (' < ', ' <= '), (' >= ', ' > '), (' > ', ' >= '), (' == ', ' != '), (' != ', ' == '), (' && ', ' || '), (' || ', ' && '), (' + 1', ''), (' - 1', ''), ('..=', '..')]
 ASSIGN = re.compile(r'^\s+(\*?[a-z_][\w\.]*)(\.\w+)+ (=|\+=|-=) [^;]*;\s*$')
 CALL = re.compile(r'^\s+[a-z_][\w\.]*\.[a-z_]\w*\([^;]*\)(\.await)?\??;\s*$')
 SKIP = re.compile(r'(info|warn|error|debug|trace)!|metrics\.|println|\bassert|sleep\(|\.abort\(|interval')
@@ -21,15 +24,25 @@ for f in files:
     for i, l in enumerate(lines):
         if l.strip().startswith('#[cfg(test)]'):
             break
-        if (ASSIGN.match(l) or CALL.match(l)) and not SKIP.search(l) and not l.strip().startswith('//'):
-            cands.append((f, i, l))
+        if SKIP.search(l) or l.strip().startswith('//') or l.strip().startswith('#['):
+            continue
+        if MODE == 'del':
+            if ASSIGN.match(l) or CALL.match(l):
+                cands.append((f, i, l, ''))
+        else:
+            if '"' in l or '->' in l or '=>' in l and ' if ' not in l or l.strip().startswith(('use ', 'pub fn', 'fn ', 'impl', 'where')) or '<' in l and '>' in l and '::<' in l:
+                continue
+            for a, b_ in REL:
+                if a in l and not (a.strip() in ('<', '>') and re.search(r'<\w|\w>|Vec<|Option<|Arc<|Result<', l)):
+                    cands.append((f, i, l, l.replace(a, b_, 1)))
+                    break
 random.seed(7)
 random.shuffle(cands)
 res = json.load(open(OUT)) if os.path.exists(OUT) else {}
 env = dict(os.environ, VERIF_REPO=W, VERIF_EVIDENCE='/tmp/verif-scratch-ev-auto')
 done = 0
-for f, i, l in cands:
-    key = '%s:%d:%s' % (f, i + 1, l.strip())
+for f, i, l, repl in cands:
+    key = '%s:%d:%s%s' % (f, i + 1, l.strip(), (' => ' + repl.strip()) if repl else '')
     if key in res:
         continue
     if done >= MAX:
@@ -38,7 +51,7 @@ for f, i, l in cands:
     p = os.path.join(W, f)
     src = open(p).read()
     lines = src.split('\n')
-    lines[i] = ''
+    lines[i] = repl
     open(p, 'w').write('\n'.join(lines))
     try:
         first = subprocess.run([V + '/check', props[0]], capture_output=True, text=True, cwd=V, env=env)
